@@ -6,6 +6,7 @@ C16 - warnings are counted and drive the exit status.  Claimed for the COUNTING 
 and for the PROVENANCE part of the location clause:
   R16.4 a report names the file the object itself was read from (source_path set once, read from self), `<file>:<line>: <text>`;
         a type field keeps the line of its field
+  R16.5 unit agreement: a docutils line (1-based) is converted where a ParseError (0-based) is built
 Does not decide: any line arithmetic (offsets inside a docstring are runtime values).
 """
 from __future__ import annotations
@@ -189,4 +190,36 @@ def run(repo: Repo, chk: Check, thorough: bool = False) -> None:
     if n_pt < 1:
         raise AnalysisError('R16.4: the per-field ParsedTypeDocstring(...) construction in processtypes was not found')
     chk.require('R16.4', 4)
+
+    # ------------------------------------------------------------------ R16.5  (unit agreement, not arithmetic)
+    # ParseError counts lines from 0 ("The linenum of the first line is 0", linenum() adds one); docutils counts from 1.  A line taken from a
+    # docutils node / system message must be converted where the ParseError is built.
+    n_pe = 0
+    for f in sorted(repo.funcs.values(), key=lambda f: f.qn):
+        if not f.mod.name.startswith('pydoctor.epydoc.markup') or '.test' in f.mod.name:
+            continue
+        for c in calls_in(f, lambda c: call_name(c) == 'ParseError'):
+            arg = next((k.value for k in c.keywords if k.arg == 'linenum'), c.args[1] if len(c.args) > 1 else None)
+            if arg is None:
+                continue
+            exprs = [arg]
+            if isinstance(arg, ast.Name):
+                exprs = [n.value for n in f.walk() if isinstance(n, (ast.Assign, ast.AnnAssign, ast.AugAssign)) and n.value is not None and
+                         any(isinstance(t, ast.Name) and t.id == arg.id for t in (n.targets if isinstance(n, ast.Assign) else [n.target]))] or [arg]
+            docutils_line = any((isinstance(x, ast.Attribute) and x.attr == 'line') or
+                                (isinstance(x, ast.Call) and call_name(x) == 'get' and x.args and isinstance(x.args[0], ast.Constant) and x.args[0].value == 'line')
+                                for e in exprs for x in ast.walk(e))
+            if not docutils_line:
+                continue
+            n_pe += 1
+            converted = any(isinstance(x, ast.BinOp) and isinstance(x.op, ast.Sub) and isinstance(x.right, ast.Constant) and x.right.value == 1 for e in exprs for x in ast.walk(e)) or \
+                any(isinstance(n, ast.AugAssign) and isinstance(n.op, ast.Sub) and isinstance(n.value, ast.Constant) and n.value.value == 1 and
+                    isinstance(n.target, ast.Name) and isinstance(arg, ast.Name) and n.target.id == arg.id for n in f.walk())
+            chk.ob('R16.5', f'{f.qn} :: ParseError line taken from docutils is converted to the 0-based convention', converted,
+                   '1-based docutils line - 1' if converted else
+                   f'`{norm(c)[:60]}` hands docutils\' 1-based line to ParseError, which counts from 0: the problem is reported one line below the block that contains it '
+                   '(past the end of the file for an error on the last line)', repo.loc(f.mod, c))
+    if n_pe < 2:
+        raise AnalysisError(f'R16.5: {n_pe} ParseError constructions fed from a docutils line found (2 confirmed: _EpydocReader.report, _SplitFieldsTranslator.visit_field)')
+    chk.require('R16.5', 2)
 
